@@ -22,7 +22,8 @@ def jcs (c : Json) : Json :=
     let direct := match transform text with
       | some cs => .obj [("class", .str "ok"), ("out", .str (hexOfChars cs))]
       | none => .obj [("class", .str "err")]
-    let viaValue := match (Parse.parse text).map dedupLast with
+    -- (both `encoding/json`, which the harness decodes with, and the transformer refuse nesting beyond 10000)
+    let viaValue := match ((Parse.parse text).map dedupLast).bind fun v => if v.depth ≤ maxNesting then some v else none with
       | some v => (match transformValue v with
         | some cs => .obj [("class", .str "ok"), ("out", .str (hexOfChars cs))]
         | none => .obj [("class", .str "err")])
